@@ -94,6 +94,7 @@ enum
     CL_TWO_DEVICES,
     CL_TWO_DEVICES_RUNNING,
     CL_CROSS,
+    CL_URI_OVERSIZED_BUFFER,
 };
 
 const VhSpec kSpec = {
@@ -107,7 +108,7 @@ const VhSpec kSpec = {
       "fault_fired", "fault_open", "fault_flock", "fault_pwrite", "fault_persistent", "device_used_after_fault", "failed_append_reported",
       "close_while_running", "close_without_start", "start_stop_without_frames", "f32_frames", "odd_image_size", "raw_file_compared",
       "tiff_file_read_back", "restart_without_set", "file_offsets_beyond_4GiB", "second_device_on_running_file_refused",
-      "second_device_on_running_file_admitted", "two_devices_open", "two_devices_running", "cross_device_descriptor_reuse_scenario", nullptr },
+      "second_device_on_running_file_admitted", "two_devices_open", "two_devices_running", "cross_device_descriptor_reuse_scenario", "uri_in_oversized_buffer", nullptr },
     { "C14 non-trivial: a raw file was compared byte for byte AND (>=2 acquisitions on that device, or a short write inside a multi-frame packet)",
       "C15 non-trivial: a TIFF file was read back AND (N>=2 frames in >=2 packets, or >=2 start/stop cycles on one device, or tiff-json)",
       "C16 non-trivial: an injected fault fired and the device was used again afterwards, or close while running / without start with the "
@@ -372,7 +373,12 @@ do_set(Ctx& x, unsigned spelling, uint16_t meta_sel, uint16_t scale_sel)
     Acq a;
     char name[64];
     static const char* ext[4] = { ".raw", ".tif", ".dir", ".bin" };
-    snprintf(name, sizeof name, "acq%d%s", x.path_counter++, ext[x.kind]);
+    // names of different lengths (a shorter path after a longer one), sometimes handed over in a buffer
+    // that is larger than the string (zero or junk after the terminator): both legal for struct String
+    unsigned extra = (scale_sel >> 8) % 12;
+    snprintf(name, sizeof name, "acq%d%.*s%s", x.path_counter++, (int)extra, "qwertyuiopas", ext[x.kind]);
+    unsigned pad = ((scale_sel >> 12) & 1) ? 1 + (scale_sel >> 13) * 5 : 0;
+    bool junk = pad && ((meta_sel >> 9) & 1);
     bool absolute = spelling & 1, file_uri = spelling & 2;
     a.path = x.dir + "/" + name;
     std::string uri = absolute ? a.path : std::string(name);
@@ -382,6 +388,12 @@ do_set(Ctx& x, unsigned spelling, uint16_t meta_sel, uint16_t scale_sel)
     }
     if (absolute)
         x.c.cls(CL_ABS_PATH);
+    std::vector<char> ubuf(uri.begin(), uri.end());
+    ubuf.push_back(0);
+    for (unsigned k = 0; k < pad; ++k)
+        ubuf.push_back(junk ? (char)('A' + k % 26) : 0);
+    if (pad)
+        x.c.cls(CL_URI_OVERSIZED_BUFFER);
     unsigned mm = meta_sel % 8;
     StorageProperties props;
     memset(&props, 0, sizeof props);
@@ -389,20 +401,21 @@ do_set(Ctx& x, unsigned spelling, uint16_t meta_sel, uint16_t scale_sel)
     const char* mdesc;
     if (mm == 0) {
         // metadata pointer NULL (zeroed properties + uri)
-        storage_properties_set_uri(&props, uri.c_str(), uri.size() + 1);
+        storage_properties_set_uri(&props, ubuf.data(), ubuf.size());
         props.pixel_scale_um = sc;
         mdesc = "none(NULL)";
     } else if (mm == 1) {
-        storage_properties_init(&props, 0, uri.c_str(), uri.size() + 1, nullptr, 0, sc, 0); // metadata becomes ""
+        storage_properties_init(&props, 0, ubuf.data(), ubuf.size(), nullptr, 0, sc, 0); // metadata becomes ""
         mdesc = "none(\"\")";
     } else {
         a.meta = gen_metadata(meta_sel / 8);
         a.meta_set = true;
-        storage_properties_init(&props, 0, uri.c_str(), uri.size() + 1, a.meta.c_str(), a.meta.size() + 1, sc, 0);
+        storage_properties_init(&props, 0, ubuf.data(), ubuf.size(), a.meta.c_str(), a.meta.size() + 1, sc, 0);
         mdesc = a.meta.c_str();
         x.c.cls(CL_METADATA);
     }
-    x.c.trace("SET uri=%s scale=(%g,%g) metadata=%.80s%s", uri.c_str(), sc.x, sc.y, mdesc, strlen(mdesc) > 80 ? "..." : "");
+    x.c.trace("SET uri=%s%s scale=(%g,%g) metadata=%.80s%s", uri.c_str(), pad ? (junk ? " [in a larger buffer, junk after the terminator]" : " [in a larger, zero-padded buffer]") : "", sc.x, sc.y, mdesc,
+              strlen(mdesc) > 80 ? "..." : "");
     op_begin();
     DeviceStatusCode r = storage_set(x.dev, &props);
     storage_properties_destroy(&props);
@@ -994,7 +1007,10 @@ do_intruder(Ctx& x, const VhTok& t)
     x.c.trace("    -> set %s, start %s", rs == Device_Ok ? "ok" : "rejected", admitted ? "ADMITTED" : "refused");
     if (admitted) {
         x.c.cls(CL_INTRUDER_ADMITTED);
-        x.acq.interfered = true;
+        // a raw intruder that is stopped at once has written nothing: the running raw device's file is
+        // still judged; a tiff intruder writes its header at start, so the contents are not judged then
+        if (!(x.kind == 0 && k2 == 0))
+            x.acq.interfered = true;
         storage_stop(d2);
     } else
         x.c.cls(CL_INTRUDER_REFUSED);
